@@ -45,8 +45,8 @@ def run(ctx, monitors=MONITORS):
     write_scripts(walks_in, walks)
     plan_in = os.path.join(ctx.work, "secrecy-plan.ndjson")
     write_scripts(plan_in, [plan])
-    ctx.notes.append("TLC walks of the file machine replayed on the real stores: %d; call plan: %d response emitters"
-                     % (len(walks), len(plan["responses"])))
+    ctx.notes.append("TLC walks of the file machine replayed on the real stores: %d; call plan: %d response emitters, %d error-reply emitters"
+                     % (len(walks), len(plan["responses"]), len(plan.get("errors", []))))
 
     # 2. design level in the background while Go compiles and runs
     err = []
@@ -104,7 +104,9 @@ def run(ctx, monitors=MONITORS):
             "not_exercised": sorted(done.get("unexercised", [])),
             "peer_facing_not_exercised": sorted(done.get("peerfacing_unexercised", [])),
             "files_observed": sorted(done.get("files", [])),
+            "refusal_paths_driven": sorted(done.get("refusals", [])),
         }
+        ctx.notes.append("refusal paths driven (error replies scanned): %d" % len(done.get("refusals", [])))
         ctx.notes.append("inventory: %d of %d emitters exercised; not exercised: %s" % (
             len(done.get("emitters", [])), done.get("inventory", 0), ", ".join(sorted(done.get("unexercised", []))) or "-"))
     drift = []
